@@ -170,6 +170,57 @@ def generated_base(rng):
     return ("gen:cascade", {"main.asm": ("\n".join(src) + "\n").encode("utf-8")}, "main.asm")
 
 
+# ----------------------------------------------------------------------------- directed family: zero-sized items x bank shapes
+ZERO_RULES = ("#ruledef\n{\n    z => 0`0\n    e => asm { }\n    ze {x} => x`0\n    one => 0b1\n    byte => 0xaa\n"
+              "    w {x} => { assert(x >= 0), 0`0 }\n}\n")
+# (name, text, bits) zero-sized items and their 1-bit neighbours
+ZERO_ITEMS = [("rule_0`0", "z", 0), ("asm_empty", "e", 0), ("rule_arg`0", "ze 5", 0), ("rule_assert_0", "w 1", 0),
+              ("d_0`0", "#d 0`0", 0), ("d_empty_string", '#d ""', 0), ("d_two_zero", "#d 0`0, 0`0", 0), ("d_concat_zero", "#d 0`0 @ 0`0", 0),
+              ("res_0", "#res 0", 0), ("align_1", "#align 1", 0), ("align_8_aligned", "#align 8", 0),
+              ("rule_1bit", "one", 1), ("d_1bit", "#d 0b1", 1), ("d1", "#d1 1", 1), ("res_1", "#res 1", None), ("d8", "#d8 0x55", 8),
+              ("label_only", "mid:", 0), ("const_here", "here = $", 0)]
+# (name, lines before the item).  The item lands in the bank / at the position the name says.
+ZERO_BANKS = [
+    ("no_outp", ["#bankdef b { #addr 0x100, #size 0x10 }"]),
+    ("no_outp_after_written_bank", ["#bankdef code { #addr 0, #size 0x10, #outp 0 }", "#d8 0xaa", "#bankdef vars { #addr 0x100, #size 0x10 }"]),
+    ("no_outp_switch", ["#bankdef code { #addr 0, #size 0x10, #outp 0 }", "#bankdef vars { #addr 0x100, #size 0x10 }", "#bank code", "#d8 0xaa", "#bank vars"]),
+    ("no_size", ["#bankdef b { #addr 0x100, #outp 0 }"]),
+    ("no_size_no_outp", ["#bankdef b { #addr 0x100 }"]),
+    ("fill", ["#bankdef b\n{\n    #addr 0\n    #size 4\n    #outp 0\n    #fill\n}"]),
+    ("fill_second_bank", ["#bankdef a\n{\n    #addr 0\n    #size 2\n    #outp 0\n    #fill\n}", "#d8 1", "#bankdef b\n{\n    #addr 0x10\n    #size 2\n    #outp 16\n    #fill\n}"]),
+    ("default_bank_after_bankdef", ["#bankdef b { #addr 0x100, #size 0x10, #outp 0 }", "#d8 0xaa", "#bank #global_bankdef"]),
+    ("default_bank_only", []),
+    ("end_of_sized_bank", ["#bankdef b { #addr 0, #size 2, #outp 0 }", "#d16 0xbbcc"]),
+    ("end_of_sized_bank_no_outp", ["#bankdef b { #addr 0, #size 2 }", "#res 2"]),
+    ("end_via_addr", ["#bankdef b { #addr 0, #size 4, #outp 0 }", "#addr 4"]),
+    ("past_end_via_addr", ["#bankdef b { #addr 0, #size 4, #outp 0 }", "#addr 5"]),
+    ("past_end_via_align", ["#bankdef b { #addr 0, #size 3, #outp 0 }", "#d8 1", "#align 32"]),
+    ("before_start_via_addr", ["#bankdef b { #addr 0x10, #size 4, #outp 0 }", "#addr 0x8"]),
+    ("bits_3_unaligned", ["#bankdef b { #bits 3, #addr 0, #size 8, #outp 0 }", "#d1 1"]),
+    ("bits_3_no_outp_unaligned", ["#bankdef b { #bits 3, #addr 0, #size 8 }", "#d1 1"]),
+    ("overlapping_outp", ["#bankdef a { #addr 0, #size 2, #outp 0 }", "#d8 1", "#bankdef b { #addr 0, #size 2, #outp 8 }"]),
+    ("size_zero_bank", ["#bankdef b { #addr 0, #size 0, #outp 0 }"]),
+    ("size_zero_bank_no_outp", ["#bankdef b { #addr 0, #size 0 }"]),
+]
+ZERO_LABELS = [("none", [], []), ("before", ["before:"], []), ("after", [], ["after:", "#d8 after`8"]),
+               ("both_and_nested", ["before:", ".inner:"], ["after:", ".x = after - before"])]
+
+
+def zero_size_family():
+    """the full product, the same on every run: [(label, files, entry)].  Built from combinations a token mutator will not
+    find: a zero-bit-wide item (or its 1-bit neighbour) x where it lands (bank without outp / size, filled bank, default
+    bank, very end of a sized bank, past the end, unaligned) x labels around it; once alone and once followed by a byte."""
+    out = []
+    for (iname, item, bits) in ZERO_ITEMS:
+        for (bname, pre) in ZERO_BANKS:
+            for (lname, lb, la) in ZERO_LABELS:
+                for tail in ((), ("#d8 0x77",), (item,)):
+                    src = ZERO_RULES + "\n".join(list(pre) + lb + [item] + la + list(tail)) + "\n"
+                    out.append(("gen:zero/%s/%s/labels_%s/tail_%d" % (iname, bname, lname, len(tail) and (1 if tail[0] != item else 2)),
+                                {"main.asm": src.encode("utf-8")}, "main.asm"))
+    return out
+
+
 def donor_lines(bases, rng, n=400):
     lines = []
     for _ in range(n):
